@@ -117,8 +117,10 @@ def classify(group, res):
             hints = []
             for sp in spans:
                 ln = sp.get("line_start", 0)
-                if sp.get("is_primary") and 1 <= ln <= len(group.out.map) and group.out.map[ln - 1]["kind"] == "hint":
+                if 1 <= ln <= len(group.out.map) and group.out.map[ln - 1]["kind"] == "hint":
                     hints.append(group.out.map[ln - 1]["hint"])
+                elif 1 <= ln <= len(group.out.map) and group.out.map[ln - 1].get("opt"):
+                    hints.append(group.out.map[ln - 1]["opt"])
             unsize = None
             if "unsizing operation from `&mut " in msg and "to `&mut dyn Storage`" in msg:
                 for sp in spans:
@@ -212,7 +214,7 @@ def verify_group(gname, scratch, rlimit=30):
             fails, tool = classify(g, res)
         # proof hints that no longer type-check on this tree are dropped and the rest is verified without them
         bad = set(h for t in tool for h in t.get("hints", []))
-        if tool and bad and all(t.get("hints") for t in tool):
+        if tool and bad and not bad <= disabled:
             disabled |= bad
             continue
         break
